@@ -215,6 +215,9 @@ def _pattern(xs: SymSeq, j: z3.ExprRef):
     ref = getattr(e, "ref", None)
     if ref is not None:
         return ref
+    items = getattr(e, "items", None)
+    if items and V.is_z3(items[0]):
+        return items[0]
     return j + 0
 
 
